@@ -1,5 +1,6 @@
 import WcModel.Driver.Parse
 import WcModel.Driver.Spec
+import WcModel.Driver.Tidy
 /-
   wcdriver: one request per line on stdin, one reply per line on stdout.
   `<cmd> <field> <field> …`; unknown or malformed requests answer `bad-op`.
@@ -11,6 +12,7 @@ def dispatch (cmd : String) (args : List String) : Option String :=
   | "parse" => Driver.handleParse args
   | "match" => Driver.handleMatch args
   | "spec" => Driver.handleSpec args
+  | "tidy" => Driver.handleTidy args
   | "ping" => some "pong"
   | _ => none
 
